@@ -534,7 +534,7 @@ func checkAlgAccessor(r *Report, rule string, acc *ssa.Function) {
 	ei := errIndex(acc)
 	np := 0
 	exact := map[string]bool{"Algorithm": true, "int": true, "int8": true, "int16": true, "int32": true, "int64": true, "uint8": true, "uint16": true, "uint32": true}
-	for _, p := range P.allPaths(acc) {
+	for _, p := range P.deepPaths(acc) {
 		if !p.feasible() {
 			continue
 		}
@@ -549,7 +549,12 @@ func checkAlgAccessor(r *Report, rule string, acc *ssa.Function) {
 		np++
 		o := r.ob(rule, shortFn(acc)+":path:"+pathID(p), acc, p.ret, "a returned algorithm is the stored value, value-preservingly converted")
 		v := res[0]
-		if v.Op == "convert" && len(v.Args) == 1 {
+		for v.Op == "convert" && len(v.Args) == 1 {
+			// conversions between int64-based types keep the value; the
+			// source type is judged below
+			if !(strings.HasSuffix(v.S, "Algorithm") || v.S == "int64") {
+				break
+			}
 			v = v.Args[0]
 		}
 		why := ""
